@@ -112,6 +112,69 @@ CLAIMED = {
              design="8/C10", note=NOTE + "Partial: independence of the produced items from hash iteration order is observed over repeated runs, not proved (every HashSet/HashMap "
                   "iteration that reaches the output was made order-independent by the fix commits and is listed in DESIGN.md).",
              technique="Coq proof (output stage: stable sort + dedup) + differential correspondence + repeated-run exploration"),
+ "C13": dict(text="Spelling independence: 95 Coq theorems. Lexer: a position-free restatement of the lexer (klex) equals the lexer's token keys for every text; "
+                  "replacing any non-empty run of space/tab/comma/CR by another, inserting optional separators at self-delimiting boundaries, adding "
+                  "a comment before a newline or a blank line changes the key stream exactly as expected (C13_layout_separators, _optional_separators, "
+                  "_comment, _blank_line, C13_layout_render), with the exact side conditions (not inside a string/char/comment; counterexamples proved). "
+                  "Parser: comments and blank lines are ignored - nodes equal up to positions, errors equal up to the token named after 'found' "
+                  "(drive_same_code, parse_texts_same_code) under the proved-necessary provisos (a comment does stop a data directive's value list); a "
+                  "valid label on its own line equals the label before its statement (label_own_line). Tables: all 65 register names, mnemonics, "
+                  "directives and immediates are case/alias/notation independent (reg_names_sound/_complete, inst_from_str_lower, imm_same_value with "
+                  "its exact range proviso, char literals). Operand forms: 11 theorems ((rs) = 0(rs), jalr forms, jal label = jal ra, label ...). "
+                  "Pseudo-instructions: 26 theorems pseudo_X (same node as the official expansion up to token text) and the documented exceptions "
+                  "(mv = add rd,rs,x0 with equal gen/kill; call; la; RARS operand order of csrw/csrs/csrc; sgez). END TO END "
+                  "(C13_same_keys_same_diagnostics, with Props/Param.v): two writings with equal token keys get equal nodes and parse errors up to "
+                  "positions and, through the whole pipeline, the same diagnostics each located at the same node index and operand selector. Tied to "
+                  "the code by lexer/parser/diagnostic correspondence on rewritten texts; the checker writes every program plainly and with a random "
+                  "composition of all listed rewrites at every site and compares diagnostics by statement and operand.",
+             design="8/C13", note=NOTE + "Not one theorem: the composition 'any sequence of the listed rewrites preserves diagnostics' - each rewrite class has its theorem and "
+                  "the end-to-end theorem covers everything that keeps the token keys; rewrites that change tokens (case, aliases, notations, operand forms, pseudo-instructions) are "
+                  "proved at the table/parse_inst level and explored end to end. The parser follows the RARS dialect for csrw/csrs/csrc (register first).",
+             technique="Coq proof (position-free lexer, parser/pipeline parametricity in positions, finite tables, per-form parse equalities) + differential correspondence + rewrite metamorphic exploration"),
+ "C14": dict(text="Renaming equivariance, whole pipeline: Coq theorems prove for EVERY class permutation sigma (a bijection moving temporaries among "
+                  "temporaries, saved among saved, fixing every other register; given as a validated list) and EVERY injective label renaming rho that "
+                  "fixes the one reserved internal name: all register-class tables and ecall signatures are invariant (C14_tables); kill/gen, every "
+                  "per-node set and predicate are equivariant for every node (C14_regs_node, C14_labels_node); liveness and the value analysis commute "
+                  "with the renaming (C14_liveness, C14_avail, C14_transfer); the whole pipeline does (C14_pipeline: gen_full_cfg of the renamed "
+                  "program is the renamed graph or the renamed error); and the diagnostics of the renamed program are a PERMUTATION of the original "
+                  "ones with identical kinds, locations and flags (C14_items, C14_regs_items; plain equality for label renamings, "
+                  "C14_labels_items). Plain list equality under register permutations is refuted by a proved counterexample (three lints enumerate "
+                  "register sets in numeric order: only the order of same-node findings changes). Tied to the code by the lint/graph correspondence on "
+                  "renamed programs; the checker lints each program as written and after a random renaming/permutation and compares kinds, statements "
+                  "and operand positions with operands mapped (this exploration and the proof work found a genuine defect: a user label named "
+                  "__return__ captured the analyzer's internal jump name; fixed).",
+             design="8/C14", note=NOTE + "Hypotheses: rho injective and fixing the reserved name '<return>' (not a valid identifier since the fix, so every renaming of valid identifiers "
+                  "extends to such a rho); for the 'labels not defined' error the reported location/title follows rho only if rho is monotone on the undefined labels (the code "
+                  "picks the alphabetically first): counterexample proved, location is always one of the undefined labels. Renaming acts on parsed nodes; that the parser maps "
+                  "renamed text to renamed nodes is C13's spelling tables plus the parser correspondence.",
+             technique="Coq proof (equivariance of every pipeline stage by simulation) + differential correspondence + renaming metamorphic exploration"),
+ "C15": dict(text="Include = textual inclusion: Coq theorems over the model of the file driver prove, for every store, text and fault: parsing is "
+                  "parametric in positions and file identities (C15_parse_one_erase, C15_drive_erase); a failing .include (absent path, IO fault, "
+                  "already imported = self/cyclic/second inclusion) contributes exactly its error located on the directive's path token, no node, and "
+                  "parsing continues as if the line were absent (C15_include_fault, end to end for A ++ line ++ B vs A ++ B up to positions); a "
+                  "succeeding .include is equivalent to pasting the file (C15_run_concat exact at driver level, C15_include_paste end to end, nested "
+                  "includes allowed) provided the included text and the text before the directive end at a statement boundary (executable predicate "
+                  "`closed`; counterexamples proved: a trailing `.word 1` keeps consuming numbers of the next line, an unterminated .macro); every node "
+                  "and error produced from an included text carries that file's id and file-relative positions (C15_include_locations, exact). "
+                  "Parsing any store always returns. Tied to parsing.rs/reader by comparing nodes, errors and diagnostics on include trees with faults; "
+                  "the checker cuts programs into random include trees (in memory and on disk with nested directories through the rva binary) and "
+                  "requires the pasted program's diagnostics at the mapped file/line, and checks --all-files against the other-files counter.",
+             design="8/C15", note=NOTE + "Hypotheses `closed` (statement boundary) and no_cyclic are needed and shown necessary by proved counterexamples. The CLI's path resolution "
+                  "(IOFileReader: relative to the including file, canonicalisation) is exercised on disk, not modelled. Whole-tree flattening follows by iterating the one-level theorem (not stated as one theorem).",
+             technique="Coq proof (driver refinement: include = paste, fault step lemmas, position parametricity) + differential correspondence + cut-and-paste metamorphic exploration"),
+ "C18": dict(text="Output channels: Coq theorems over the model of printer.rs prove: every lint kind, parse error and CFG error has a non-empty title and "
+                  "lint severity is a function of the kind (C18_kind_table); the excerpt is exact - for reported columns on the line after its "
+                  "indentation the marker line has carets exactly under columns start..end, keeps tabs/white space before them, and the shown line is "
+                  "the source line trimmed (C18_excerpt_exact/_source/_outside cover every other case); the items every channel receives are one "
+                  "list sorted by (file name, start, end) and the base-file filter keeps that order and counts the hidden items (C18_visible_sorted, "
+                  "C18_display_pretty); the compact line, the pretty header and the JSON record are functions of the same fields and the compact "
+                  "output can be decoded back to them (C18_channels_agree, C18_compact_decode, C18_compact_output). Tied to printer.rs by rendering "
+                  "the items returned by the library entry point RVParser::run with the extracted printer model and comparing byte for byte with "
+                  "the rva binary's pretty and compact output (with/without --all-files); the checker parses JSON, compact and pretty output back and "
+                  "compares them with each other and with the library items, order included, and checks JSON shape and excerpt/carets against the file.",
+             design="8/C18", note=NOTE + "Colours are not modelled (none are emitted when stdout is not a terminal); JSON text layout is serde_json's (trusted), compared as parsed data. "
+                  "Reader-fault messages differ between the in-memory reader and the CLI reader by design and are normalised in the comparison.",
+             technique="Coq proof (printer model: excerpt geometry, order preservation, decodability) + byte-exact differential correspondence + cross-channel exploration"),
  "C01": dict(text="Value analysis soundness: Coq theorem C01_claims_hold_on_executions proves, over an RV32IM machine written from the ISA (arithmetic = the "
                   "FoldSpec of C08, byte-addressed little-endian memory, calls summarised by the calling convention, ecalls by the RARS table), that for ANY "
                   "graph whose facts satisfy the analysis equations and any execution of any length from an entry node inside the supported subset, every "
